@@ -11,6 +11,7 @@ from .. import mir as M
 from .. import skeleton as S
 from ..harness import Result
 from ..mir import T
+from .. import slices as SL
 
 LEVEL = "proof"
 
@@ -130,15 +131,9 @@ def check_cmp(res, facts, e, v, N, s, paes):
     fn, file = e.id, v.file()
     # one operand: the whole tail of the decoded payload; the other: the whole recomputed tag
     def tail_of_payload(t):
-        if t.op != "call":
-            return None
-        if re.search(r"Index<core::ops::range::RangeFrom<usize>>>::index$", t.name) and is_payload(t.args[0]):
-            return "RangeFrom"
-        if re.search(r"Index<core::ops::range::Range<usize>>>::index$", t.name) and is_payload(t.args[0]):
-            rng = t.args[1]
-            end = M.mk_field(rng, "end")
-            if end.op == "call" and re.search(r"Vec::<u8>::len$|<impl \[u8\]>::len$|<impl \[T\]>::len$", end.name) and is_payload(end.args[0]):
-                return "Range..len"
+        sl = SL.payload_slice(t)
+        if sl is not None and sl[1] == SL.L:
+            return "tail from %r" % (sl[0],)
         return None
 
     def whole_tag(t):
@@ -255,7 +250,8 @@ def check_delegated(res, facts, e, v, N, s, paes, oks):
             marg = call.args[msg.name - 1]
             aarg = call.args[[x for x in aad.walk() if x.op == "param"][0].name - 1]
             okc = any(is_payload(x) for x in marg.walk()) and aarg.op == "call" and bool(re.search(r"PreAuthenticationEncoding::parse$", aarg.name))
-            whole = marg.op == "field" and marg.name == "1" and marg.args[0].op == "call" and re.search(r"split_at$", marg.args[0].name)
+            msl = SL.payload_slice(marg)
+            whole = msl is not None and msl[1] == SL.L and msl[0].is_const()
             res.oblige(okc and bool(whole))
             res.inst("C03.R3", "%s: AEAD decrypt of %s with aad %s" % (e.label, M.show(marg)[:80], M.short(aarg.name) if aarg.op == "call" else "?"))
             if not (okc and whole):
